@@ -1,6 +1,7 @@
 package main
 
 import (
+	"go/constant"
 	"fmt"
 	"go/types"
 	"strings"
@@ -801,6 +802,26 @@ func (e *Enc) goStmt(st *State, ins *ssa.Go) {
 		goal = TTrue
 	}
 	e.oblige("spawn", calleeShort(key), e.autoProps(), st.reach, goal, "goroutine started on "+key+" must not be able to panic (no recover in a bare goroutine)", ins.Pos())
+	// `spawnsite` clauses of the function's contract: facts that must hold wherever it starts a goroutine
+	if e.c != nil {
+		for _, cs := range e.c.CallSites {
+			if cs.Callee != "go:" {
+				continue
+			}
+			sc := e.specCtx(st, e.pre)
+			sc.preferLocals = true
+			t, err := sc.evalBool(cs.Clause.Expr)
+			if err != nil {
+				e.unsupported = fmt.Sprintf("spawnsite: %q: %v", cs.Clause.Text, err)
+				return
+			}
+			anchor := cs.Clause.Label
+			if anchor == "" {
+				anchor = "spawnsite"
+			}
+			e.oblige("ghost", anchor, clauseProps(cs.Clause, e.autoProps()), st.reach, t, "where a goroutine is started: "+cs.Clause.Text, ins.Pos())
+		}
+	}
 }
 
 // callSiteClauses: assertions of the function's own contract attached to this call (by callee and ordinal).
@@ -813,6 +834,9 @@ func (e *Enc) callSiteClauses(st *State, c *ssa.CallCommon, key string, args []V
 	}
 	for i, cs := range e.c.CallSites {
 		if !strings.HasSuffix(key, cs.Callee) {
+			continue
+		}
+		if cs.Text != "" && !callMentions(c, cs.Text) {
 			continue
 		}
 		ordKey := fmt.Sprintf("%d", i)
@@ -842,7 +866,40 @@ func (e *Enc) callSiteClauses(st *State, c *ssa.CallCommon, key string, args []V
 	}
 }
 
-var traceBuiltins = map[string]bool{"ncalls": true, "calleeIs": true, "arg": true, "res": true, "childrenWalked": true}
+// callMentions: one of the call's arguments is, or is concatenated from, a string constant containing text.
+func callMentions(c *ssa.CallCommon, text string) bool {
+	var has func(v ssa.Value, depth int) bool
+	has = func(v ssa.Value, depth int) bool {
+		if depth > 6 {
+			return false
+		}
+		switch v := v.(type) {
+		case *ssa.Const:
+			if v.Value != nil && v.Value.Kind() == constant.String {
+				return strings.Contains(constant.StringVal(v.Value), text)
+			}
+		case *ssa.BinOp:
+			return has(v.X, depth+1) || has(v.Y, depth+1)
+		case *ssa.Call:
+			for _, a := range v.Call.Args {
+				if has(a, depth+1) {
+					return true
+				}
+			}
+		case *ssa.MakeInterface:
+			return has(v.X, depth+1)
+		}
+		return false
+	}
+	for _, a := range c.Args {
+		if has(a, 0) {
+			return true
+		}
+	}
+	return false
+}
+
+var traceBuiltins = map[string]bool{"ncalls": true, "calleeIs": true, "arg": true, "res": true, "res2": true, "res3": true, "childrenWalked": true}
 
 // usesTrace: the expression mentions the activation trace, directly or through spec functions.
 func (P *Prog) usesTrace(x SExpr, depth int) bool {
